@@ -103,8 +103,22 @@ class Recorder:
 
 
 # ----------------------------------------------------------------------------- predicates (independent NumPy)
+def below_tiny(scat, mass, norm):
+    """the degenerate branch of from_covariance (theorems C09_cacg_eig_degenerate / hypothesis of C09_cacg_trace_normalise_unit):
+    the covariance D * scat / max(mass, tiny) handed to it has largest eigenvalue ('eigenvalue') / trace ('trace') below tiny,
+    i.e. it is exactly zero or subnormal"""
+    t = tiny_of(scat)
+    D = scat.shape[-1]
+    cov = D * scat / np.maximum(mass, t)[..., None, None]
+    if norm == 'trace':
+        return np.einsum('...dd', cov).real < t
+    if norm == 'eigenvalue':
+        return np.linalg.eigvalsh((cov + np.swapaxes(cov.conj(), -1, -2)) / 2).max(-1) < t
+    return np.zeros(scat.shape[:-2], bool)
+
+
 def pred_cacg(tag, U, lam, norm, floor, scat_zero, fails):
-    """U (..., D, D), lam (..., D); scat_zero (...) bool: the class scatter handed to eigh is the zero matrix"""
+    """U (..., D, D), lam (..., D); scat_zero (...) bool: the class covariance handed to from_covariance is zero / below tiny"""
     D = lam.shape[-1]
     if not (np.all(np.isfinite(U)) and np.all(np.isfinite(lam))):
         fails.append(('%s: cACG eigenvectors / eigenvalues contain NaN/Inf' % tag, 'cacg:nonfinite:%s' % tag))
@@ -122,13 +136,14 @@ def pred_cacg(tag, U, lam, norm, floor, scat_zero, fails):
         mx = lam.max(-1)
         bad = np.abs(mx - 1) > 1e-12
         # the listed finding is exactly: zero scatter -> every eigenvalue equals the floor; anything else is a new violation
-        stated = scat_zero & np.all(np.abs(lam - floor) <= 1e-12 * floor, axis=-1)
+        stated = scat_zero & (mx < 1)        # C09_cacg_eig_degenerate: max(ev/tiny, floor) < 1 (all equal to the floor for a zero matrix)
         if np.any(bad & ~stated):
             fails.append(('%s: largest cACG eigenvalue is %.17g, not 1' % (tag, mx[bad & ~stated][0]), 'cacg:eig-max:%s' % tag))
         scat_zero = stated
         if np.any(bad & scat_zero):
             fails.append(('%s covariance_norm=eigenvalue: a class whose weighted scatter matrix is exactly zero (all of its frames are '
-                          'zero) gets eigenvalues all equal to the floor %g: maximum %.3g instead of 1' % (tag, floor, mx[bad & scat_zero][0]), K_EIG))
+                          'zero) gets eigenvalues max(ev/tiny, floor), all equal to the floor %g for the zero matrix: maximum %.3g instead of 1'
+                          % (tag, floor, mx[bad & scat_zero][0]), K_EIG))
     else:
         mx = lam.max(-1, keepdims=True)
         lo = np.maximum(mx * floor, t)
@@ -138,13 +153,14 @@ def pred_cacg(tag, U, lam, norm, floor, scat_zero, fails):
             tr = lam.sum(-1)
             hi = 1 + D * lo[..., 0]
             bad = (tr < 1 - 1e-9) | (tr > hi + 1e-9)
-            scat_zero = scat_zero & np.all(lam == t, axis=-1)       # the listed finding: zero scatter -> all eigenvalues = tiny
+            scat_zero = scat_zero & (tr < 1)     # the listed finding: trace below tiny -> eigenvalues max(ev/tiny, tiny), sum < 1
             if np.any(bad & ~scat_zero):
                 fails.append(('%s: trace-normalised cACG eigenvalues sum to %.12g, not 1 up to flooring' % (tag, tr[bad & ~scat_zero][0]),
                               'cacg:trace:%s' % tag))
             if np.any(bad & scat_zero):
-                fails.append(('%s covariance_norm=trace: a class whose weighted scatter matrix is exactly zero gets eigenvalues all equal to '
-                              'tiny: trace %.3g instead of 1' % (tag, tr[bad & scat_zero][0]), K_TRACE))
+                fails.append(('%s covariance_norm=trace: a class whose weighted scatter matrix is exactly zero (all of its frames are zero) or, one '
+                              'iteration later, subnormal (quadratic forms 1/tiny) has trace below tiny: eigenvalues max(ev/tiny, tiny), all equal to tiny '
+                              'for the zero matrix: trace %.3g instead of 1' % (tag, tr[bad & scat_zero][0]), K_TRACE))
     # covariance U diag(lam) U^H: Hermitian; positive definite where the reconstruction can resolve it
     C = np.einsum('...wx,...x,...zx->...wz', U, lam, U.conj())
     sc = max(float(np.abs(C).max()), t)
@@ -512,8 +528,8 @@ def eval_model(rp):
         t = tiny_of(y)
         c = s_all / np.maximum(q, 10 * t)
         scat = np.einsum('...kn,...nd,...ne->...kde', c, z, z.conj())
-        scat_zero = np.abs(scat).max((-1, -2)) == 0
         norm = opts.get('covariance_norm', 'eigenvalue')
+        scat_zero = below_tiny(scat, s_all.sum(-1), norm)
         floor = float(opts.get('eigenvalue_floor', 1e-10))
         U, lam = np.asarray(model.cacg.covariance_eigenvectors), np.asarray(model.cacg.covariance_eigenvalues)
         pred_cacg(tag, U, lam, norm, floor, scat_zero, fails)
@@ -688,7 +704,7 @@ def eval_single(rp):
         c = 1 / np.maximum(q, 10 * tiny_of(y))
         scat = np.einsum('...n,...nd,...ne->...de', c, z, z.conj())
         U, lam = np.asarray(model.covariance_eigenvectors), np.asarray(model.covariance_eigenvalues)
-        pred_cacg(tag, U, lam, o['covariance_norm'], o['eigenvalue_floor'], np.abs(scat).max((-1, -2)) == 0, fails)
+        pred_cacg(tag, U, lam, o['covariance_norm'], o['eigenvalue_floor'], below_tiny(scat, np.full(lead, float(N)), o['covariance_norm']), fails)
         q = np.broadcast_to(q, (*lead, N))
         if np.all(np.isfinite(U[li])) and np.all(np.isfinite(lam[li])):
             coq.append(coq_cacg(y[li], np.ones(N), q[li], U[li], lam[li], o['hermitize'], True, o['covariance_norm'], o['eigenvalue_floor']))
